@@ -739,6 +739,10 @@ func compareExpected(exp, post, pre *Snapshot, touched map[string]bool, op Op, s
 				prop = "C20"
 			}
 			if wholeOp != "" {
+				if prop == "C20" && wholeOp != "C20" {
+					// a task's results stay attached, newest first, through every later command
+					out = append(out, Violation{"C20", "expected vs observed after `" + op.Kind + "`: " + d})
+				}
 				prop = wholeOp
 			} else if op.Kind == "plan" && pre.Items[id] != nil {
 				prop = "C11"
